@@ -2,6 +2,15 @@
 PENDING_REASON = "static rules designed in DESIGN.md §3 but the check is not registered yet (under construction)"
 
 CLAIMS = {
+    "C12": {
+        "technique": "static analysis: effect analysis with the store receiver resolved through a class hint, guard-fact/dominance checks of the budget tests over the accumulation, must-pass pairing of work and counters, factor provenance of the contribution, seeding/ordering shape, free-variable-vs-cache-key slice containment",
+        "text": "Decides on t1.py and graph/store.py: propagation performs no mutating operation on the store, its graphs or the state (and the store's read API creates nothing); the work loop is bounded by the pop counter "
+                "incremented once per iteration before any continue; radius and (slice-clamped) layer tests dominate every accumulation with d = dist[u]+1; the relaxation cap is tested after every relaxation and stops all work; "
+                "the node budget gates expansion; effective budgets are min(config, slice cap); every accumulation counts one propagation, skips count their cap, iters = min(layers, cap); a contribution is w x edge weight x relation "
+                "multiplier x _compute_decay(d); seeds only where the lower-cased label occurs, visited sorted; one delta per id in sorted order; every loop budget is part of the result-cache key.",
+        "note": "Not decided: agreement with an independent reference propagation on all graphs (cycles, parallel edges, negative weights), the EPS cut-off numerics, and the exact set of touched nodes as a value-level law. "
+                "Inert perf knobs (dedupe ring / visited set are falsy when empty) are not part of the statement.",
+    },
     "C17": {
         "technique": "static analysis: effect analysis of the selection function, return-value provenance against the eligibility filter, dominance order of the reason returns, who-may-call + must-pass of stage calls before each yield check, def-use of slice caps into min()/slice clamps",
         "text": "Decides: next_turn is effect-free and reads time only through ctx.now_ms(); every returned agent comes from the list filtered by consec < max_consecutive_turns, or is min(queue) with RESET_CONSEC exactly where "
